@@ -21,6 +21,7 @@ from .clock import frozen, host_zone, text, zone_rules
 from .irsets import spec_set
 
 HOSTS = ["10.1.1.1", "10.1.1.2", "10.1.1.3"]
+FAR_BASE = 3551 * 7 * 86400          # 2038-01-20, a whole number of weeks after the epoch
 
 
 # ----------------------------------------------------------------------------------------
@@ -220,7 +221,8 @@ def _result_fields(op: str, res, a: dict) -> dict:
 def _sched_fields(res, a: dict) -> dict:
     if True:
         import time as _t
-        return {"zone": a["zone"], "now": int(_t.time()), "scheds": [
+        base = (a["base"][0] << 16) + a["base"][1] if a.get("base") else 0
+        return {"zone": a["zone"], "now": int(_t.time()) - base, **({"base": a["base"]} if base else {}), "scheds": [
             {"id": text(s.schedule_id), "recurring": bool(s.recurring), "days": sorted(d.weekday for d in s.days),
              "start": text(s.start_time), "end": text(s.end_time), "duration": text(s.duration), "display": text(s.display)}
             for s in sorted(res.schedules, key=lambda s: int(s.schedule_id))]}
@@ -242,7 +244,7 @@ def _spec_args(op: str, a: dict) -> dict:
     if op == "set_position":
         return {"pos": a["pos"]}
     if op == "get_schedules":
-        return {"zone": a["zone"]}
+        return {"zone": a["zone"], **({"base": a["base"]} if a.get("base") else {})}
     if op == "control_breeze_device":
         return {"set": spec_set(a["irset"]), "state": a["state"], "mode": a["mode"], "temp": a["temp"], "fan": a["fan"],
                 "swing": a["swing"], "update": a["update"]}
@@ -319,6 +321,11 @@ class Run:
                 import time as _t
                 op["a"]["now"] = int(_t.time())
                 op["a"]["zone"] = zone_rules(scn.get("zone", "UTC"), op["a"]["now"], span_days=op["a"].get("span", 5))
+                if op["op"] == "get_schedules" and op["a"]["now"] >= FAR_BASE + 86400 * 14:
+                    # after 2038 (TLC's integers are 32-bit): instants and zone rules are counted from a base that is a whole
+                    # number of weeks after the epoch (Schedule!Rel)
+                    op["a"]["base"] = [FAR_BASE >> 16, FAR_BASE & 0xFFFF]
+                    op["a"]["zone"] = [[0 if k == 0 else r[0] - FAR_BASE, r[1]] for k, r in enumerate(op["a"]["zone"])]
             self.cur = op
             self.log(ev="Call", c=k + 1, op=op["op"], a=_spec_args(op["op"], op["a"]), clk=vnet.clk_floor())
             try:
